@@ -35,6 +35,12 @@ var snapSeeds = []snapSeed{
 	// compacts; back in contact n3 needs that snapshot (which carries the newer membership)
 	{"config-lagging", 4, []uint64{1, 2, 3}, nil, []string{"T:1", "run", "update:1", "run", "block:1:3", "admin:1:add:4", "run",
 		"update:1", "run", "update:1", "run", "update:1", "run", "update:1", "run", "snap:1", "run", "heal:1:3"}, nil},
+	// a snapshot was taken at 4 = end of the first segment while entry 5 was appended but not committed, with every
+	// follower's match index at 4; the non-voter n3 is still at 4 and has not looked at the leader's updates since
+	// (FSM goroutine as explicit actor only: the script contains its steps)
+	{"second", 3, []uint64{1, 2}, []uint64{3}, []string{"T:1", "run", "update:1", "run", "update:1", "run", "update:1",
+		`ev:{"k":"RS","n":0,"f":2}`, `ev:{"k":"D","n":1,"c":"0>1#0"}`, "snap:1", `ev:{"k":"SS","n":0}`, `ev:{"k":"F","n":0}`, `ev:{"k":"SW","n":0}`,
+		`ev:{"k":"RR","n":0,"f":2}`, `ev:{"k":"F","n":0}`, `ev:{"k":"ST","n":0}`}, nil},
 	// a membership change is in flight while snapshots are requested
 	{"member", 3, []uint64{1, 2}, []uint64{3}, []string{"T:1", "run", "update:1", "run", "update:1", "run"}, []string{"promote:3", "remove:3"}},
 }
@@ -82,6 +88,10 @@ func scenSnap(seed snapSeed, dev int, eagerFSM bool, orderCost bool, maxSnaps in
 func snapScenarios(tier string) []*simScenario {
 	var out []*simScenario
 	for _, s := range snapSeeds {
+		if s.name == "second" {
+			out = append(out, scenSnap(s, 2, false, true, 2))
+			continue
+		}
 		if s.name == "divergent" || s.name == "config-lagging" || s.name == "boundary" {
 			d := 2
 			if tier == "thorough" {
@@ -110,6 +120,10 @@ func snapScenarios(tier string) []*simScenario {
 
 func init() {
 	for _, s := range snapSeeds {
+		if s.name == "second" {
+			simScenarios["snap-second-db"] = scenSnap(s, 2, false, true, 2)
+			continue
+		}
 		simScenarios["snap-"+s.name] = scenSnap(s, 1, true, false, 1)
 		simScenarios["snap-"+s.name+"-db"] = scenSnap(s, 2, false, true, 2)
 	}
